@@ -700,3 +700,37 @@ M('c12-key-copy-len', 'C12', 'src/containers/qtreetbl.c',
 M('c17-include-token', 'C17', 'src/extensions/qconfig.c',
   "            char token[CONST_STRLEN(_INCLUDE_DIRECTIVE) + PATH_MAX];", "            char token[PATH_MAX];",
   'BW1', 'qconfig_parse_file', 'directive token buffer without room for the directive itself')
+
+# ---- wave 7 rules ------------------------------------------------------------------------------
+M('c09-addat-backlink', 'C09', 'src/containers/qlist.c',
+  "        obj->next = tgt;\n        tgt->prev = obj;", "        obj->next = tgt;",
+  'DL2', 'qlist_addat', 'successor keeps pointing at its old predecessor')
+M('c09-addfirst-backlink', 'C09', 'src/containers/qlist.c',
+  "        obj->next = list->first;\n        if (obj->next != NULL)\n            obj->next->prev = obj;\n        list->first = obj;",
+  "        obj->next = list->first;\n        list->first = obj;",
+  'DL2', 'qlist_addat', 'old head not linked back to the new head')
+M('c09-addlast-tail', 'C09', 'src/containers/qlist.c',
+  "        if (obj->prev != NULL)\n            obj->prev->next = obj;\n        list->last = obj;", "        if (obj->prev != NULL)\n            obj->prev->next = obj;",
+  'DL2', 'qlist_addat', 'tail pointer not moved to the appended element')
+M('c08-insertobj-tail', 'C08', 'src/containers/qlisttbl.c',
+  "    if (next == NULL) tbl->last = obj;\n    else next->prev = obj;", "    if (next != NULL) next->prev = obj;",
+  'DL2', 'insertobj', 'tail pointer not set when appending')
+M('c09-clear-memset', 'C09', 'src/containers/qlist.c',
+  "    list->num = 0;\n    list->datasum = 0;\n    list->first = NULL;\n    list->last = NULL;", "    memset(&list->num, 0, sizeof(qlist_t) - ((char *) &list->num - (char *) list));",
+  'E6', 'qlist_clear', 'size limit wiped by a block fill')
+M('c08-getmulti-growth', 'C08', 'src/containers/qlisttbl.c',
+  "        if (numfound >= allocobjs) {", "        if (numfound > allocobjs) {",
+  'GR1', 'qlisttbl_getmulti', 'no slot for the end marker')
+M('c19-vsnprintf-fit', 'C19', 'src/internal/qinternal.h',
+  "            if (_n >= 0 && _n < _strsize) break;", "            if (_n >= 0 && _n <= _strsize) break;",
+  'W5', None, 'truncated vsnprintf output accepted when its length equals the buffer size')
+M('c17-free-moved', 'C17', 'src/utilities/qencode.c',
+  "    while (newquery && *newquery) {\n        char *value = _q_makeword(newquery, sepchar);",
+  "    while (newquery && *newquery) {\n        if (*newquery == sepchar) { newquery++; continue; }\n        char *value = _q_makeword(newquery, sepchar);",
+  'M6', 'qparse_queries', 'allocation base advanced before free')
+M('c20-bool-prefix', 'C20', 'src/extensions/qaconf.c',
+  "    if (!strcasecmp(s, \"true\"))", "    if (!strncasecmp(s, \"true\", strlen(s)))",
+  'B1', '_is_str_bool', 'prefix match accepts abbreviations and the empty word')
+M('c17-bool-prefix', 'C17', 'src/extensions/qaconf.c',
+  "    if (!strcasecmp(s, \"true\"))", "    if (!strncasecmp(s, \"true\", strlen(s)))",
+  'CU5', '_is_str_bool', 'prefix match accepts the empty word, which is then overwritten in place')
